@@ -64,7 +64,7 @@ def import_pydl():
     import warnings
     warnings.simplefilter('ignore')
     import astropy
-    astropy.log.setLevel('ERROR')
+    astropy.log.setLevel('CRITICAL')
     import pydl
     where = os.path.realpath(os.path.dirname(pydl.__file__))
     if where != os.path.join(tree, 'pydl'):
